@@ -123,6 +123,8 @@ impl UnixWriteAdapter {
 
 impl Write for UnixWriteAdapter {
     fn write(&mut self, buf: &[u8]) -> io::Result<usize> {
+        #[cfg(cadence_verif)]
+        crate::verif::point("sink.write");
         self.stats.update(self.socket.send_to(buf, &self.path), buf.len())
     }
 
@@ -229,11 +231,15 @@ impl BufferedUnixMetricSink {
 impl MetricSink for BufferedUnixMetricSink {
     fn emit(&self, metric: &str) -> io::Result<usize> {
         let mut writer = self.buffer.lock().unwrap();
+        #[cfg(cadence_verif)]
+        let _scope = crate::verif::Scope::new("sink.cs.enter", "sink.cs.exit");
         writer.write(metric.as_bytes())
     }
 
     fn flush(&self) -> io::Result<()> {
         let mut writer = self.buffer.lock().unwrap();
+        #[cfg(cadence_verif)]
+        let _scope = crate::verif::Scope::new("sink.cs.enter", "sink.cs.exit");
         writer.flush()
     }
 
